@@ -118,7 +118,37 @@ FamCallKw == <<
     CallKwN(gg, << x >>, Imm(A1B2)),
     CallKwN(ff, << y >>, Imm(A1B2)),
     CallKwN(ff, << M1 >>, Imm(A1B2)),
-    CallKwN(ff, << M2 >>, Imm(A1B2)) >>
+    CallKwN(ff, << M2 >>, Imm(A1B2)),
+    \* round 5: the same keyword arguments handed over in other forms of Mapping
+    CallKwN(ff, << x >>, Map("proxy", A1B2)),
+    CallKwN(ff, << x >>, Map("umap", << KwE("b", Two), KwE("a", One) >>)) >>
+
+(***************************************************************************)
+(* Round 5: pairs for the sweep "forms".  The first object is built with   *)
+(* every mapping in it handed over in a form TLC chooses (C01_Values!      *)
+(* MapForms), the second from the canonical form: same contents, other     *)
+(* insertion order, ==-but-other-type value, one value different, values   *)
+(* with colliding hashes, the EMPTY mapping (falsy), nodes as values, the   *)
+(* call nested in another node.                                            *)
+(***************************************************************************)
+KwAB == CallKwN(ff, << x >>, Imm(A1B2))
+KwNodes == CallKwN(ff, << x >>, Imm(<< KwE("a", x), KwE("b", Ch("Sum", << x, y >>)) >>))
+FormPairs == {
+    << KwAB, KwAB >>,
+    << KwAB, CallKwN(ff, << x >>, Imm(<< KwE("b", Two), KwE("a", One) >>)) >>,
+    << KwAB, CallKwN(ff, << x >>, Imm(<< KwE("a", OneF), KwE("b", Two) >>)) >>,
+    << KwAB, CallKwN(ff, << x >>, Imm(<< KwE("a", One), KwE("b", Three) >>)) >>,
+    << CallKwN(ff, << x >>, Imm(<< KwE("a", M1) >>)), CallKwN(ff, << x >>, Imm(<< KwE("a", M2) >>)) >>,
+    << CallKwN(ff, << x >>, Imm(<< >>)), CallKwN(ff, << x >>, Imm(<< >>)) >>,
+    << KwNodes, KwNodes >>,
+    << Ch("Sum", << y, KwAB >>), Ch("Sum", << y, KwAB >>) >> }
+FormPairsQuick == {
+    << KwAB, KwAB >>,
+    << KwAB, CallKwN(ff, << x >>, Imm(<< KwE("a", One), KwE("b", Three) >>)) >>,
+    << CallKwN(ff, << x >>, Imm(<< KwE("a", M1) >>)), CallKwN(ff, << x >>, Imm(<< KwE("a", M2) >>)) >>,
+    << CallKwN(ff, << x >>, Imm(<< >>)), CallKwN(ff, << x >>, Imm(<< >>)) >>,
+    << Ch("Sum", << y, KwNodes >>), Ch("Sum", << y, KwNodes >>) >> }
+FormSmallPairs == { << KwAB, KwAB >>, << CallKwN(ff, << x >>, Imm(<< >>)), CallKwN(ff, << x >>, Imm(<< >>)) >> }
 
 FamSubLook == <<
     Bin("Subscript", x, One), Bin("Subscript", x, OneF), Bin("Subscript", y, One),
